@@ -404,6 +404,9 @@ def c10(prop, tier):
     for c in (["bn254"] if tier == "quick" else CURVES):
         jobs.append(Job("groth16-options-" + c, "./backend/groth16/" + c, ["prelude_sym.go", "c10_opts_groth16.go"], {"PKGNAME": "groth16", "CURVE": c, "GROTHPKG": "github.com/consensys/gnark/backend/groth16/" + c}))
         jobs.append(Job("plonk-options-" + c, "./backend/plonk/" + c, ["prelude_sym.go", "c10_opts_plonk.go"], {"PKGNAME": "plonk", "CURVE": c, "PLONKPKG": "github.com/consensys/gnark/backend/plonk/" + c}))
+    for c in (["bn254"] if tier == "quick" else CURVES):
+        sub = dict(groth_subst(c), FRPKG=fr_pkg(c), CURVE=c, SHAREDHASH="true")
+        jobs.append(Job("shared-hash-option-" + c, "./backend/groth16/" + c, ["prelude_sym.go", "prelude_fr_sym.go", "c03_challenge.go"], sub))
     for f in (["bn254"] if tier == "quick" else ["bn254", "tinyfield", "bls12-381"]):
         jobs.append(Job("run-schedules-" + f, "./constraint/" + f, ["prelude_sym.go", "c10_run.go"],
                         {"PKGNAME": "cs", "NBTASKCHOICES": "1" if tier == "quick" else "2", "PREEMPTS": "1"}))
@@ -411,7 +414,7 @@ def c10(prop, tier):
             # two preemptions with 2 workers (with 3 workers the schedule count exceeds the path budget: stated bound)
             jobs.append(Job("run-schedules-2preempt-" + f, "./constraint/" + f, ["prelude_sym.go", "c10_run.go"], {"PKGNAME": "cs", "NBTASKCHOICES": "1", "PREEMPTS": "2"}))
     return run_property(prop, tier, jobs,
-                        title="C10: two solves sharing one compiled system execute the real Reset()/Solve() of the stateful lookup blueprint as atomic blocks under every interleaving (symbolic schedule) with symbolic witnesses; each must get its own table entries. Also: sequential re-use (Reset restores the initial state). Solver run(): worker pool / task channel / error channel / WaitGroup under a cooperative goroutine scheduler, every interleaving at synchronisation operations within a preemption bound (quick: 1 preemption, 2 workers; thorough: 1 preemption with 2..3 workers and 2 preemptions with 2 workers), two symbolic failing-instruction ids over 5 representative positions: run() returns on every schedule (no deadlock, no panic), fails iff an instruction failed with that instruction's error, otherwise processed every instruction once.",
+                        title="C10: two solves sharing one compiled system execute the real Reset()/Solve() of the stateful lookup blueprint as atomic blocks under every interleaving (symbolic schedule) with symbolic witnesses; each must get its own table entries. Also: sequential re-use (Reset restores the initial state). One hash-to-field object given to Prove and then to Verify (c03_challenge.go with the shared object): Prove leaves it reset, the verifier hashes the same bytes and derives the same value. Solver run(): worker pool / task channel / error channel / WaitGroup under a cooperative goroutine scheduler, every interleaving at synchronisation operations within a preemption bound (quick: 1 preemption, 2 workers; thorough: 1 preemption with 2..3 workers and 2 preemptions with 2 workers), two symbolic failing-instruction ids over 5 representative positions: run() returns on every schedule (no deadlock, no panic), fails iff an instruction failed with that instruction's error, otherwise processed every instruction once.",
                         design_ref="DESIGN.md §3 C10",
                         assumptions=["block-level atomicity of Reset() and Solve() (sub-block data races are the race detector's domain)", "abstract Solver with the contract checked in C06"],
                         outside=["goroutine pipelines of the provers", "sync.Pool internals", "newSolver's GKR option handling", "data races inside processInstruction (the scheduler switches at synchronisation operations only)", "more than 2 preemptions per schedule; 2 preemptions with 3 workers"],
@@ -504,7 +507,7 @@ def c03(prop, tier):
     curves = ["bn254"] if tier == "quick" else CURVES
     jobs = [Job("filterHeap-" + c, "./backend/groth16/" + c, ["prelude_sym.go", "prelude_fr_sym.go", "c03_filterheap.go"], {"PKGNAME": "groth16", "FRPKG": fr_pkg(c)}) for c in curves]
     for c in (["bn254", "bw6-761"] if tier == "quick" else CURVES):
-        sub = dict(groth_subst(c), FRPKG=fr_pkg(c), CURVE=c)
+        sub = dict(groth_subst(c), FRPKG=fr_pkg(c), CURVE=c, SHAREDHASH="false")
         jobs.append(Job("commitment-challenge-" + c, "./backend/groth16/" + c, ["prelude_sym.go", "prelude_fr_sym.go", "c03_challenge.go"], sub))
     for c in (["bn254"] if tier == "quick" else CURVES):
         jobs.append(Job("plonk-domains-" + c, "./backend/plonk/" + c, ["prelude_sym.go", "c03_plonk_domains.go"], dict(plonk_subst(c), CRVNAME=c)))
@@ -545,6 +548,23 @@ def c14(prop, tier):
                         outside=["the table-based word operations And / Or / Xor / Not (2^16-row lookup tables over a committed challenge)", "sums of U64 words (exceed the 64-bit stand-in)", "other fields than GF(47) for the E-CS part"],
                         expect_reach={"verifHarness_u32ShiftRotate": ["u32-shift-rotate"], "verifHarness_u32Add": ["u32-add"], "verifHarness_u32ValueOf": ["u32-valueof"], "verifHarness_u64ShiftRotate": ["u64-shift-rotate"]},
                         extra_violations=ev, extra_inconclusive=ei, extra_coverage={k: v for k, v in ec.items() if k == "ecs"})
+
+
+def c16(prop, tier):
+    jobs = [Job("twistededwards", "./std/algebra/native/twistededwards", ["prelude_sym.go", "prelude_fr_sym.go", "api_field_standin.go", "c16_twistededwards.go"],
+                {"PKGNAME": "twistededwards", "FRPKG": fr_pkg("bn254")}, timeout_ms=120000),
+            Job("sw-bls12377", "./std/algebra/native/sw_bls12377", ["prelude_sym.go", "prelude_fr_sym.go", "api_field_standin.go", "c16_sw.go"],
+                {"PKGNAME": "sw_bls12377", "FRPKG": fr_pkg("bw6-761")}, timeout_ms=120000),
+            Job("sw-bls24315", "./std/algebra/native/sw_bls24315", ["prelude_sym.go", "prelude_fr_sym.go", "api_field_standin.go", "c16_sw.go"],
+                {"PKGNAME": "sw_bls24315", "FRPKG": fr_pkg("bw6-633")}, timeout_ms=120000)]
+    return run_property(prop, tier, jobs,
+                        title="C16 (affine group laws of the native-field gadgets only): twisted Edwards add / double / neg / assertIsOnCurve against the textbook formulas of the group law, and the two-chain short-Weierstrass G1 AddAssign / Double / Neg against the chord-and-tangent formulas, as identities over ALL field values of the coordinates (and of the curve parameters a, d) in the algebra model, under each formula's domain (non-zero denominators; distinct x for the chord; y != 0 for the tangent). The gadgets run against a field-valued frontend.API stand-in.",
+                        design_ref="DESIGN.md §3 C16",
+                        assumptions=["denominators non-zero (for twisted Edwards: true for points of a curve with a square and d non-square, where the law is complete)", "identities over Q hold in every field"],
+                        outside=["scalar multiplication, multi-scalar multiplication, GLV / fake-GLV, DoubleAndAdd and the complete AddUnified (tried: the solver does not decide those identities within minutes)",
+                                 "emulated short-Weierstrass arithmetic, pairings, ECDSA / EdDSA / EVM precompile gadgets (emulated or 2-chain extension-field arithmetic over 254-761 bit fields)",
+                                 "constraint-level soundness (the stand-in evaluates the gadget's formulas)"],
+                        expect_reach={"verifHarness_twistedEdwardsGroupLaw": ["group-law"], "verifHarness_swChordTangent": ["chord-tangent"]})
 
 
 def c18(prop, tier):
